@@ -62,14 +62,16 @@ def _num_rules(seed):
     return rr, du
 
 
-def run_pipeline(mesh, test_spec, trial_spec, kernel_key="laplace_single_layer", numeric=False, seed=0, domain_indices=None, trial_mesh=None,
-                 assembly_type="default_scalar", geometry="derived"):
+def run_pipeline(mesh, test_spec, trial_spec, kernel_key=None, numeric=False, seed=0, domain_indices=None, trial_mesh=None,
+                 assembly_type="default_scalar", geometry="derived", par_case="ki!=0"):
     """Execute the real pipeline; returns dict with A (assembled), singular triple, and the context for the spec."""
     import bempp_cl.api as api
     from bempp_cl.api.operators import OperatorDescriptor
     from bempp_cl.core.dense_assembler import assemble_dense
     from bempp_cl.core.singular_assembler import assemble_singular_part
 
+    kernel_key = kernel_key or KERNEL_OF[assembly_type]
+    nonorm = assembly_type in NO_NORMALS
     v, e = _mesh(mesh)
     grid = SG.make_grid(v, e, domain_indices)
     if trial_mesh is None:
@@ -83,16 +85,16 @@ def run_pipeline(mesh, test_spec, trial_spec, kernel_key="laplace_single_layer",
         rr, du = _num_rules(seed)
         geo_t = GS.Geometry(grid.vertices, grid.elements)
         geo_r = geo_t if tgrid is grid else GS.Geometry(tgrid.vertices, tgrid.elements)
-        par = []
+        par = _numeric_par(kernel_key, par_case)
 
         def K(x, y, nx, ny, par):
-            return stub_numeric(*(list(x) + list(y) + list(nx) + list(ny) + list(par)))
+            return stub_numeric(*(list(x) + list(y) + ([] if nonorm else list(nx) + list(ny)) + list(par)))
 
         def kr(tp, trp, tn, trn, kp):
-            return np.array([stub_numeric(*(list(tp) + list(trp[:, j]) + list(tn) + list(trn[:, j]) + list(kp))) for j in range(trp.shape[1])])
+            return np.array([stub_numeric(*(list(tp) + list(trp[:, j]) + ([] if tn is None else list(tn) + list(trn[:, j])) + list(kp))) for j in range(trp.shape[1])])
 
         def ks(tp, trp, tn, trn, kp):
-            return np.array([stub_numeric(*(list(tp[:, j]) + list(trp[:, j]) + list(tn) + list(trn) + list(kp))) for j in range(trp.shape[1])])
+            return np.array([stub_numeric(*(list(tp[:, j]) + list(trp[:, j]) + ([] if tn is None else list(tn) + list(trn)) + list(kp))) for j in range(trp.shape[1])])
     else:
         S.reset()
         if geometry == "free":
@@ -109,12 +111,12 @@ def run_pipeline(mesh, test_spec, trial_spec, kernel_key="laplace_single_layer",
         rrf = SG.sym_regular_rule(2)
         rr = rrf(0)
         du = SG.sym_duffy()
-        par = []
+        par = _symbolic_par(kernel_key, par_case)
         kr = SG.stub_kernel("K", "regular", stub_numeric)
         ks = SG.stub_kernel("K", "singular", stub_numeric)
 
         def K(x, y, nx, ny, par):
-            return S.fn("K", list(x) + list(y) + list(nx) + list(ny) + list(par), stub_numeric)
+            return S.fn("K", list(x) + list(y) + ([] if nonorm else list(nx) + list(ny)) + list(par), stub_numeric)
 
     desc = OperatorDescriptor("stub", par, kernel_key, assembly_type, "double", False, None, 1)
     stubs = {kernel_key + "_regular": kr, kernel_key + "_singular": ks}
@@ -138,10 +140,31 @@ def run_pipeline(mesh, test_spec, trial_spec, kernel_key="laplace_single_layer",
             setattr(NK, kernel_key + "_regular", saved[3])
             setattr(NK, kernel_key + "_singular", saved[4])
     else:
-        with SG.object_pipeline(lambda order: rr, du, stubs):
+        from bempp_cl.core import numba_kernels as _NK
+        from vlib.objnp import patched as _patched
+
+        with SG.object_pipeline(lambda order: rr, du, stubs), _patched(_NK):
             A = assemble_dense(trial, test, params, desc, "numba")
             sing = assemble_singular_part(trial.localised_space, test.localised_space, params, desc, "numba") if tgrid is grid else None
     return dict(A=A, sing=sing, grid=grid, tgrid=tgrid, test=test, trial=trial, geo_t=geo_t, geo_r=geo_r, rr=rr, du=du, K=K, par=par)
+
+
+def _symbolic_par(kernel_key, par_case):
+    from specs import kernels as KS
+
+    n = KS.NPARAMS[kernel_key]
+    if n == 0:
+        return []
+    if n == 1:
+        return [S.var("w", nonzero=True)]
+    return [S.var("kr"), S.var("ki", nonzero=True)] if par_case == "ki!=0" else [S.var("kr", nonzero=True), 0]
+
+
+def _numeric_par(kernel_key, par_case):
+    from specs import kernels as KS
+
+    n = KS.NPARAMS[kernel_key]
+    return [] if n == 0 else [0.9] if n == 1 else ([1.1, 0.4] if par_case == "ki!=0" else [1.1, 0.0])
 
 
 def _same(a, b, numeric):
@@ -150,13 +173,20 @@ def _same(a, b, numeric):
     return S.is_zero(S.Sym._coerce(a) - S.Sym._coerce(b))
 
 
-FORMS = {"default_scalar": None, "laplace_hypersingular": GS.curl_curl_form}
+FORMS = {"default_scalar": None, "laplace_hypersingular": GS.curl_curl_form, "helmholtz_hypersingular": GS.helmholtz_hyp_form,
+         "modified_helmholtz_hypersingular": GS.modified_hyp_form, "maxwell_electric_field": GS.maxwell_efield_form,
+         "maxwell_magnetic_field": GS.maxwell_mfield_form}
+KERNEL_OF = {"default_scalar": "laplace_single_layer", "laplace_hypersingular": "laplace_single_layer", "helmholtz_hypersingular": "helmholtz_single_layer",
+             "modified_helmholtz_hypersingular": "modified_helmholtz_single_layer", "maxwell_electric_field": "helmholtz_single_layer",
+             "maxwell_magnetic_field": "helmholtz_single_layer"}
+NO_NORMALS = ("maxwell_electric_field", "maxwell_magnetic_field")
 
 
-def check_pipeline(mesh, test_spec, trial_spec, numeric=False, seed=0, domain_indices=None, trial_mesh=None, assembly_type="default_scalar"):
+def check_pipeline(mesh, test_spec, trial_spec, numeric=False, seed=0, domain_indices=None, trial_mesh=None, assembly_type="default_scalar",
+                   par_case="ki!=0"):
     """Returns (ok, detail, info)."""
     ctx = run_pipeline(mesh, test_spec, trial_spec, numeric=numeric, seed=seed, domain_indices=domain_indices, trial_mesh=trial_mesh,
-                       assembly_type=assembly_type, geometry="derived" if assembly_type == "default_scalar" else "free")
+                       assembly_type=assembly_type, geometry="derived" if assembly_type == "default_scalar" else "free", par_case=par_case)
     form = FORMS[assembly_type]
     test, trial, grid = ctx["test"], ctx["trial"], ctx["grid"]
     same_grid = ctx["tgrid"] is grid
@@ -228,10 +258,10 @@ def check_pipeline(mesh, test_spec, trial_spec, numeric=False, seed=0, domain_in
     return True, "%d singular + %d regular element pairs, matrix %dx%d" % (n_sing, n_reg, exp.shape[0], exp.shape[1]), {}
 
 
-def replay_pipeline(mesh, test_spec, trial_spec, domain_indices=None, trial_mesh=None, seed=0, assembly_type="default_scalar"):
+def replay_pipeline(mesh, test_spec, trial_spec, domain_indices=None, trial_mesh=None, seed=0, assembly_type="default_scalar", par_case="ki!=0"):
     ok, detail, info = check_pipeline(mesh, _spec(test_spec), _spec(trial_spec), numeric=True, seed=seed,
                                       domain_indices=np.array(domain_indices, dtype="uint32") if domain_indices is not None else None, trial_mesh=trial_mesh,
-                                      assembly_type=assembly_type)
+                                      assembly_type=assembly_type, par_case=par_case)
     return {"violates": not ok, "detail": detail}
 
 
@@ -239,15 +269,16 @@ def _spec(s):
     return (s[0], int(s[1]), dict(s[2]))
 
 
-def ob_pipeline(mesh, test_spec, trial_spec, domain_indices=None, trial_mesh=None, assembly_type="default_scalar"):
+def ob_pipeline(mesh, test_spec, trial_spec, domain_indices=None, trial_mesh=None, assembly_type="default_scalar", par_case="ki!=0"):
     di = np.array(domain_indices, dtype="uint32") if domain_indices is not None else None
-    ok, detail, info = check_pipeline(mesh, test_spec, trial_spec, numeric=False, domain_indices=di, trial_mesh=trial_mesh, assembly_type=assembly_type)
+    ok, detail, info = check_pipeline(mesh, test_spec, trial_spec, numeric=False, domain_indices=di, trial_mesh=trial_mesh, assembly_type=assembly_type,
+                                      par_case=par_case)
     if ok:
         return proved("sym-exec+normal-form", detail)
-    rp = replay_pipeline(mesh, list(test_spec), list(trial_spec), domain_indices, trial_mesh, assembly_type=assembly_type)
+    rp = replay_pipeline(mesh, list(test_spec), list(trial_spec), domain_indices, trial_mesh, assembly_type=assembly_type, par_case=par_case)
     return violated(detail, witness={"mesh": mesh, "test": list(test_spec), "trial": list(trial_spec), "domain_indices": domain_indices},
                     replay={"callable": "vlib.pipeline:replay_pipeline",
                             "kwargs": {"mesh": mesh, "test_spec": list(test_spec), "trial_spec": list(trial_spec), "domain_indices": domain_indices,
-                                       "trial_mesh": trial_mesh, "assembly_type": assembly_type},
+                                       "trial_mesh": trial_mesh, "assembly_type": assembly_type, "par_case": par_case},
                             "confirmed": rp["violates"], "result": rp},
                     signature="pipeline/%s/%s/%s/%s" % (assembly_type, mesh, test_spec[0] + str(test_spec[1]), trial_spec[0] + str(trial_spec[1])))
